@@ -376,6 +376,27 @@ fn build(case: &Value) -> (String, Expectation) {
                     *exp.refusals.entry(why).or_default() += 1;
                 }
             }
+            "scoped_store" => {
+                // a local of a nested scope is re-assigned, a branch follows, and the use is the last thing
+                // the scope does: the store is live only through the scope's final block
+                let w: Vec<&str> = st["words"].as_array().unwrap().iter().map(|x| x.as_str().unwrap()).collect();
+                let r_ = recv(var);
+                src += &format!(
+                    "if to say (1 na 1) start\n    make m{fi} get {}\n    shout(m{fi}.len())\n    m{fi} get {}\n    if to say (1 na 1) start\n        shout(\"branch\")\n    end\n    {r_}.arg(m{fi})\nend\n",
+                    strlit(w[0]), strlit(w[1])
+                );
+                fi += 1;
+                if live {
+                    exp.printed.push(w[0].chars().count().to_string());
+                    exp.printed.push("branch".into());
+                    if let Some(c) = model.get_mut(&var)
+                        && let Err(why) = apply(c, &json!({"k": "arg", "v": w[1]}))
+                    {
+                        exp.ending = Some(vec!["Invalid process configuration"]);
+                        *exp.refusals.entry(why).or_default() += 1;
+                    }
+                }
+            }
             "next_store" => {
                 // a string variable is stored right before `next` and consumed at the top of the following
                 // iteration: the store is only live along the loop's back edge
@@ -612,7 +633,8 @@ impl Engine for C15 {
                 10 | 11 => steps.push(json!({"s": "loop_op", "var": var, "op": gen_op(&mut r), "n": r.range(1, 3), "computed": computed})),
                 12 | 13 => steps.push(json!({"s": "via_func", "var": var, "op": gen_op(&mut r), "computed": computed})),
                 14 => steps.push(json!({"s": r.pick(&["touch_func", "cap_func", "shadow_func"]), "var": var, "op": gen_op(&mut r), "computed": computed})),
-                17 if r.chance(60) => match r.below(4) {
+                17 if r.chance(65) => match r.below(5) {
+                    4 => steps.push(json!({"s": "scoped_store", "var": var, "words": [word(&mut r, 3), word(&mut r, 3)]})),
                     3 => steps.push(json!({"s": "next_store", "var": var, "words": [word(&mut r, 3), word(&mut r, 3), word(&mut r, 3)]})),
                     0 => steps.push(json!({"s": "interp_func", "var": var, "old": word(&mut r, 3), "new": word(&mut r, 3), "key": if r.chance(40) { json!(r.pick(&["K", "A", "k"])) } else { Value::Null }, "computed": computed})),
                     1 if var >= slots => steps.push(json!({"s": "nested_reset", "var": var, "program": program(&mut r), "computed": computed})),
